@@ -52,6 +52,12 @@ def run_shard(pid, tier, seed, shard, nshards, budget_s, out):
     faulthandler.dump_traceback_later(budget_s * 3 + 120, exit=True)
     ctx = Ctx(pid, tier, seed, shard, nshards, budget_s)
     try:
+        from . import parcases
+
+        if pid in parcases.BY_PROPERTY and (tier == "thorough" or shard < 4):
+            # independent objects used from several threads at once (deterministic interleavings at statement /
+            # instruction granularity inside every auditok module): results must equal the single-threaded ones
+            parcases.run(ctx, pid, 2 if tier == "quick" else 30)
         mod.run_shard(ctx)
     except Exception as exc:
         # The harness could not digest what the code under test produced (e.g. a token whose indices lie outside the
@@ -173,6 +179,10 @@ def check(pid, tier, seed=None, keep=False):
         reasons.append(f"shard {d['shard']} died rc={d['rc']}")
     if hasattr(mod, "inconclusive"):
         reasons.extend(mod.inconclusive(merged, tier) or [])
+    from . import parcases
+
+    if pid in parcases.BY_PROPERTY and merged["counters"].get("parallel_rounds", 0) == 0:
+        reasons.append("the several-threads workload never ran")
     if merged["evaluations"] == 0:
         reasons.append("no case executed")
     if merged["distinct_nontrivial"] < 2:
@@ -235,11 +245,20 @@ def replay(path):
     assert_repo_tree()
     ctx = Ctx(pid, rec.get("tier", "quick"), rec.get("seed", 0), 0, 1, 600, replay=True)
     case = rec["witness"].get("case")
-    if case is None or not hasattr(mod, "replay"):
+    if isinstance(case, dict) and case.get("parallel"):
+        from . import parcases
+
+        parcases.replay(ctx, case)
+        case = None
+        if not ctx.violations:
+            print(f"NOT REPRODUCED property={pid} (the recorded interleaved case now passes)")
+            return 0
+    elif case is None or not hasattr(mod, "replay"):
         print("witness holds no replayable case; full record follows")
         print(json.dumps(rec, indent=1)[:4000])
         return 2
-    mod.replay(ctx, case)
+    if case is not None:
+        mod.replay(ctx, case)
     if ctx.violations:
         for k, v in ctx.violations.items():
             print(f"REPRODUCED property={pid} mechanism={k}")
